@@ -102,9 +102,9 @@ REPLAY_PLANS = {
                   "thorough": [sim("U4", 1000, 13, "Fam_C11", "NextSim_Comp", over={"PolGates": "None", "CompGates": "BS_Gates", "FockGates": "PS_Gates", "CustomOps2": "None", "CustomOps3": "None"}),
                                sim("U2", 300, 12, "Fam_C11", "NextSim_Comp", over={"CompGates": "BS_Gates", "FockGates": "PS_Gates"})]}),
     "C17": dict(
-        cover={"quick": [cov("U1", "U1_ScriptsQ", "F_Invalid", 200), cov("U2", "U2_ScriptsQ", "F_Invalid", 120), cov("U2", "U2_ScriptsDead", "F_Invalid", 200)],
-               "thorough": [cov("U1", "U1_Scripts", "F_Invalid", 2500), cov("U2", "U2_Scripts", "F_Invalid", 2000), cov("U2", "U2_ScriptsDead", "F_Invalid", 1500),
-                            cov("U3", "U3_Scripts", "F_Invalid", 800)]},
+        cover={"quick": [cov("U1", "U1_ScriptsQ", "F_InvRes", 200), cov("U2", "U2_ScriptsQ", "F_InvRes", 120), cov("U2", "U2_ScriptsDead", "F_InvRes", 200)],
+               "thorough": [cov("U1", "U1_Scripts", "F_InvRes", 2500), cov("U2", "U2_Scripts", "F_InvRes", 2000), cov("U2", "U2_ScriptsDead", "F_InvRes", 1500),
+                            cov("U3", "U3_Scripts", "F_InvRes", 800)]},
         actions={"invalid", "op1", "resize"}, level="fault_enumeration",
         exhaustive={"quick": [("U1", 3, "Fam_C17")], "thorough": [("U1", 4, "Fam_C17")]},
         simulate={"quick": [sim("U1", 96, 10, "Fam_C17", "NextSim_Invalid"), sim("U2", 48, 10, "Fam_C17", "NextSim_Invalid")],
